@@ -26,7 +26,12 @@ func FuzzDecodeAny(f *testing.F) {
 	uni := gen.Universe()
 	for i, ti := range uni {
 		if i%7 == 0 {
-			b, _ := ua.Encode(reflect.New(ti.Type.Elem()).Interface())
+			// (a zero struct with nil pointers is not an input Encode promises to take)
+			var b []byte
+			func() {
+				defer func() { _ = recover() }()
+				b, _ = ua.Encode(reflect.New(ti.Type.Elem()).Interface())
+			}()
 			f.Add(uint16(i), b)
 		}
 	}
